@@ -35,6 +35,7 @@ type c17Probe struct {
 	Segs     int    `json:"segments,omitempty"`
 	Escaped  bool   `json:"escaped,omitempty"`
 	Union    bool   `json:"union,omitempty"`
+	Under    string `json:"under,omitempty"` // negative probes: raw pointer of the location they hang below
 }
 
 type c17Case struct {
@@ -106,6 +107,12 @@ func (g *c17gen) leaf() *jv.V {
 
 func (g *c17gen) sub(depth int) *jv.V {
 	if depth <= 0 || g.n(2, "leaf") == 0 {
+		switch g.n(12, "trivialleaf") {
+		case 0:
+			return jv.ObjV() // the empty schema is a location like any other (and accepts every marker)
+		case 1:
+			return jv.BoolV(true)
+		}
 		return g.leaf()
 	}
 	return g.host(depth, false)
@@ -312,6 +319,14 @@ func genC17(t *rapid.T) *c17Case {
 			l := leaves[rapid.IntRange(0, len(leaves)-1).Draw(t, "falseleaf")]
 			*l.node = *jv.BoolV(false)
 			c.FalseNot = true
+			// negative probes drawn earlier below this very leaf assumed it was an object
+			kept := c.Probes[:0]
+			for _, p := range c.Probes {
+				if !(p.Negative && p.Under == l.ptr) {
+					kept = append(kept, p)
+				}
+			}
+			c.Probes = kept
 			c.Probes = append(c.Probes, c17Probe{Ref: "#" + fragmentEncode(t, l.ptr+"/not"), Negative: true, Why: c17FalseNotWhy})
 		}
 	}
@@ -390,7 +405,7 @@ func genNegative(t *rapid.T, locs []c17loc) c17Probe {
 	if n.suffix == "__noslash" {
 		return c17Probe{Ref: "#" + strings.TrimPrefix(l.ptr, "/"), Negative: true, Why: "missing leading slash"}
 	}
-	return c17Probe{Ref: base + n.suffix, Negative: true, Why: n.why}
+	return c17Probe{Ref: base + n.suffix, Negative: true, Why: n.why, Under: l.ptr}
 }
 
 func (c *c17Case) docWith(probes []c17Probe) *jv.V {
